@@ -830,7 +830,7 @@ def search(ctx, prior):
 
 
 def replay(ctx, doc):
-    if doc["failure"]["input"].get("kind") in ("iteration-cut", "burst"):
+    if doc["failure"]["input"].get("kind") in ("iteration-cut", "burst", "tls-sessions"):
         from props import c10_extra
 
         return c10_extra.replay(doc["failure"]["input"])
